@@ -41,6 +41,17 @@ class Prov:
                 add(n.target.id, "assign", n, n.value)
             elif isinstance(n, ast.AugAssign) and isinstance(n.target, ast.Name):
                 add(n.target.id, "aug", n, n)
+            elif isinstance(n, ast.Expr) and isinstance(n.value, ast.Call) and isinstance(n.value.func, ast.Attribute) \
+                    and isinstance(n.value.func.value, ast.Name) and n.value.func.attr in ("append", "extend") \
+                    and len(n.value.args) == 1 and not n.value.keywords:
+                # xs.append(v)  ==  xs += [v] ;  xs.extend(ys)  ==  xs += ys
+                v = n.value.args[0]
+                rhs = ast.List(elts=[v], ctx=ast.Load()) if n.value.func.attr == "append" else v
+                syn = ast.AugAssign(target=ast.Name(id=n.value.func.value.id, ctx=ast.Store()), op=ast.Add(), value=rhs)
+                ast.copy_location(syn, n)
+                ast.fix_missing_locations(syn)
+                for cn in g.nodes_of(n):
+                    out.setdefault(n.value.func.value.id, []).append(_Def("aug", syn, syn, cn))
             elif isinstance(n, (ast.For, ast.AsyncFor)):
                 self._for_targets(n.target, n, add)
             elif isinstance(n, ast.withitem) and isinstance(n.optional_vars, ast.Name):
